@@ -23,10 +23,9 @@ reads; everything after `|` is reconstruction data):
 
 The oracle fails a case when (a) Python raised a panic or an exception where the definition has a
 value (or the other way round), (b) the Python value differs from the core library's value on the same
-data, (c) the Python value differs from the value the definition prescribes.  Deviations that are
-reproduced identically by the core library and carry the signature of a core defect handled under
-another property (scanner panics C02/C03, AVX2 maximum of all-negative scores C07, NaN from rescale
-with a null background column C09, reader panics C15) are counted as `excluded/...`, not failed.
+data, (c) the Python value differs from the value the definition prescribes.  One degenerate point is
+reported as `excluded/...` instead of failed: when every valid position scores -inf, the core's argmax
+(last cell among ties) designates a cell past the last valid position.
 """
 import io as _io
 import math
@@ -344,20 +343,6 @@ def exec_logodds(cx, head, tail):
     if g[0] == "ok":
         got = "ok " + join(flat(g[1]))
         labels = [l for l, v in menu.items() if norm(v) == norm(got)]
-        if not labels and arg[0] == "d":
-            # columns whose NEW background frequency is 0: the core's rescale multiplies by old / 0 (inf, or
-            # NaN for 0 / 0) instead of keeping the documented "null background -> odds-ratio 0" convention
-            # (core defect under C09), and what becomes of that inf / NaN depends on the build (the optimised
-            # extension module returns -inf there).  Those columns are compared by neither side.
-            null = [j for j in range(K) if bits_f32(arr[j]) == 0.0]
-
-            def mask(txt):
-                v = [int(x) for x in txt.split()[1:]]
-                return [x for i, x in enumerate(v) if i % K not in null]
-            for l, v in menu.items():
-                if "rescale" in l and null and mask(v) == mask(got):
-                    labels.append(l)
-                    key = "excluded/core-rescale-null-background"
         if expect_exc:
             errs.append(f"log_odds({pyarg_tokens(arg)}) returned a matrix, an invalid background must raise {expect_exc}")
         else:
@@ -374,6 +359,10 @@ def exec_logodds(cx, head, tail):
             for i in range(M):
                 for j in range(K - 1):
                     if bgf[j] == 0.0:
+                        # documented convention: a null background frequency gives the odds-ratio 0
+                        want0 = float("-inf") if bs > 1.0 else float("inf")
+                        if bits_f32(g[1][i][j]) != want0:
+                            bad = bad or f"log_odds[{i}][{j}] = {bits_f32(g[1][i][j])!r} in a column with background 0, expected {want0!r}"
                         continue
                     ratio = fr[i][j] / bgf[j]
                     want = (float("-inf") if bs > 1.0 else float("inf")) if ratio == 0 else (math.log2(ratio) if bs == 2.0 else math.log10(ratio) if bs == 10.0 else math.log(ratio) / math.log(bs))
@@ -443,10 +432,7 @@ def exec_calc(cx, head, tail):
             if wild_inf and npos > 0 and not any(v != v for v in fin):
                 best = max(fin)
                 if mx is None or mx != best:
-                    if backend in ("avx2", "auto") and best < 0 and mx == 0.0:
-                        key = "excluded/core-max-f32-avx2-all-negative"
-                    else:
-                        errs.append(f"max() = {mx!r}, the maximum score is {best!r}")
+                    errs.append(f"max() = {mx!r}, the maximum score is {best!r}")
                 if best == float("-inf") and am is not None and am >= npos:
                     # every valid position scores -inf and so does every cell past the end: the core's argmax
                     # (last cell among ties, C07) designates one of those; degenerate, reported only
@@ -543,10 +529,7 @@ def exec_pvalue(cx, head, tail):
                     errs.append(f"max_score() = {bits_f32(g[1])!r}, Σ_i max_a m[i][a] = {acc!r}")
     else:
         if g[0] == "panic":
-            if any(v == "panic" for v in menu.values()):
-                key = "excluded/core-panic-pvalue"
-            else:
-                errs.append(f"{which} raised PanicException: {g[1]}")
+            errs.append(f"{which} raised PanicException: {g[1]}")
         elif valid_method or g[0] != "ValueError":
             errs.append(f"{which}(method={method!r}) raised {g[0]}: {g[1]}")
     line = f"c17pvalue {obs_of(g[0], labels)} {alpha} {which} {hexs(method)} | {x} {ps}"
@@ -631,23 +614,13 @@ def exec_scan(cx, head, tail):
                     s = score_def("dna", rows, syms, p)
                     if bits_f32(s) >= t:
                         want.append((p, s))
-                if g[1] != want and labels and backend in ("generic", "sse2") and set(g[1]) <= set(want):
-                    # the generic u8 kernel adds with `+=` (wraps in release builds): high-scoring windows fall
-                    # below the byte threshold and are lost (core defect under C08/C02); identical in the core
-                    key = "excluded/core-scan-u8-wrap-generic"
-                elif g[1] != want:
+                if g[1] != want:
                     errs.append(f"scan: {len(g[1])} hits, the positions scoring >= {t!r} are {len(want)}: first difference {next((x for x in zip(g[1] + [None], want + [None]) if x[0] != x[1]), None)}")
         elif g[0] == "panic":
-            if r == "panic":
-                # the core Scanner panics on the same data (core defect under C02/C03): the Python outcome IS
-                # the outcome of the composition; reported, not failed
-                key = "excluded/core-scanner-panic"
-                labels.append("configure.scannerNew.scannerThreshold.scannerBlockSize")
-            else:
-                errs.append(f"scan raised PanicException where the core library returns {r[:60]}: {g[1]}")
+            errs.append(f"scan raised PanicException (the core library answers `{r[:40]}` on the same data): {g[1]}")
         else:
             errs.append(f"scan raised {g[0]}: {g[1]}")
-    line = f"c17scan {obs_of('ok' if (g[0] == 'panic' and labels) else g[0], labels)} {pa} {sa} | {backend} {thr} {block} {L} {join(syms)} {pssm_tokens(spec)}"
+    line = f"c17scan {obs_of(g[0], labels)} {pa} {sa} | {backend} {thr} {block} {L} {join(syms)} {pssm_tokens(spec)}"
     nontrivial = ok_alpha and g[0] == "ok" and 0 < len(g[1]) < max(1, L - len(spec[0]) + 1)
     return " ".join(line.split()), "adm-ok", verdict(errs), nontrivial, key
 
@@ -804,9 +777,8 @@ def exec_load(cx, head, tail):
     core_all = None
     if kind in ("path", "binary") and fmt in READERS and not (fmt == "jaspar" and protein):
         core_all = cx.core.ask("auto", "load", alpha, f"{fmt} {hexs(data)}")
-    if core_all in ("panic", "hang", "died"):
-        # the core reader panics / does not terminate on this input (C15): Python cannot do better, and
-        # is not run; not applicable to C17
+    if core_all in ("hang", "died"):
+        # the core reader does not terminate on this input (C15): Python is not run; not applicable to C17
         if tmp:
             os.unlink(tmp)
         line = f"c17load ok:{READERS[fmt]} {kind} {hexs(fmt)} {1 if protein else 0} 0 | {hexs(data)}"
@@ -832,7 +804,8 @@ def exec_load(cx, head, tail):
         loader = g[1]
         for cr in core_recs:
             if cr == "panic":
-                key = "excluded/core-reader-panic"
+                e = guarded(lambda: next(loader))
+                errs.append(f"load: the core reader panics on this file; Python gives {e[0]}")
                 break
             if cr == "end":
                 e = guarded(lambda: next(loader))
@@ -1284,14 +1257,16 @@ def generate(cfg, core, out):
         syms = rand_syms(rng, "dna", L, wild=rng.chance(1, 3))
         rows = logodds_pssm(rng, "dna", M, pseudo=rng.pick([0.1, 0.5, 1.0]))
         scores = sorted(bits_f32(score_def("dna", rows, syms, p)) for p in range(L - M + 1))
-        thr = rng.pick([scores[-1], scores[-1] + 1.0, scores[int(len(scores) * 0.98)], scores[int(len(scores) * 0.9)], scores[-1] - 0.5])
+        finite = [x for x in scores if x > float("-inf")] or [0.0]
+        thr = rng.pick([scores[-1], scores[-1] + 1.0, scores[int(len(scores) * 0.98)], scores[int(len(scores) * 0.9)], scores[-1] - 0.5,
+                        finite[0], finite[0] - 1.0, scores[len(scores) // 2]])
         R = (L + 31) // 32
         W = M - 1
-        blocks = [b for b in [1, 2, 3, 7, 16, 64, 255, 256, 257, R, R + W, 1000] if b >= 1 and not any(R <= m * b < R + W for m in range(1, R + W + 2))]
-        block = rng.pick(blocks) if blocks else R + W
+        # every alignment of block boundaries with the sequence rows and the look-ahead rows
+        block = rng.pick([1, 2, 3, 7, 16, 64, 255, 256, 257, max(1, R - 1), R, R + 1, R + W, 1000])
         cases.append(f"c17scan ? dna dna | {rng.pick(BACKENDS)} {f32_bits(r32(thr))} {block} {L} {join(syms)} {pssm_tokens((rows, None))}")
-    # excluded points of the core scanner (block boundary inside the look-ahead rows; L < M): compared with the core only
-    for L, M, block in [(64, 5, 1), (100, 8, 4), (3, 6, 256)]:
+    # block boundary inside the look-ahead rows; L < M; empty sequence
+    for L, M, block in [(64, 5, 1), (100, 8, 4), (3, 6, 256), (0, 3, 256), (40, 2, 1)]:
         syms = rand_syms(rng, "dna", L)
         cases.append(f"c17scan ? dna dna | auto {f32_bits(1.0)} {block} {L} {join(syms)} {pssm_tokens((logodds_pssm(rng, 'dna', M), None))}")
     for pa, sa in [("protein", "protein"), ("dna", "protein"), ("protein", "dna")]:
@@ -1309,7 +1284,7 @@ def generate(cfg, core, out):
                 recs.append((f"MA{rng.below(10000):04d}.{i}", rng.pick(["", "desc", "AGL3"]), rows))
             data = render_file(fmt, "dna", recs, rng)
             r = core.ask("auto", "load", "dna", f"{fmt} {hexs(data)}")
-            if r in ("panic", "hang", "died"):
+            if r in ("hang", "died"):
                 out.stat("excluded/core-reader-" + r)
                 continue
             kind = ["path", "binary", "binary"][rep % 3]
@@ -1319,7 +1294,7 @@ def generate(cfg, core, out):
                 k = max(i for i, ch in enumerate(data) if chr(ch).isdigit())
                 for cut in (data[:k] + b"q" + data[k + 1:], data[: len(data) * 2 // 3]):
                     r = core.ask("auto", "load", "dna", f"{fmt} {hexs(cut)}")
-                    if r not in ("panic", "hang", "died"):
+                    if r not in ("hang", "died"):
                         cases.append(f"c17load ? binary {hexs(fmt)} 0 0 | {hexs(cut)}")
                     else:
                         out.stat("excluded/core-reader-" + r)
@@ -1331,7 +1306,7 @@ def generate(cfg, core, out):
     prot_recs = [("P1", "", [[rng.below(9) for _ in range(20)] + [0] for _ in range(3)])]
     for fmt in ("jaspar16", "transfac", "uniprobe"):
         data = render_file(fmt, "protein", prot_recs, rng)
-        if core.ask("auto", "load", "protein", f"{fmt} {hexs(data)}") not in ("panic", "hang", "died"):
+        if core.ask("auto", "load", "protein", f"{fmt} {hexs(data)}") not in ("hang", "died"):
             cases.append(f"c17load ? binary {hexs(fmt)} 1 0 | {hexs(data)}")
     # ---- random stream
     count = (400 if big else 40) * cfg.boost
